@@ -95,7 +95,12 @@ LayoutInfo == [
     StampMicro      |-> [date |-> "md",   time |-> "hms",  frac |-> 6, zone |-> FALSE],
     SpaceNano       |-> [date |-> "ymd",  time |-> "hms",  frac |-> 9, zone |-> TRUE],
     \* prints the abbreviation of the zone the instant is expressed in (no offset to parse back)
-    RFC1123         |-> [date |-> "ymd",  time |-> "hms",  frac |-> 0, zone |-> FALSE]]
+    RFC1123         |-> [date |-> "ymd",  time |-> "hms",  frac |-> 0, zone |-> FALSE],
+    \* layouts whose literal text (a tab, a double quote, backslashes) needs escaping inside a JSON / logfmt
+    \* string: 2006-01-02<TAB>15:04:05.000000Z07:00, 15h04'05", 2006\01\02 15:04:05
+    TabMicro        |-> [date |-> "ymd",  time |-> "hms",  frac |-> 6, zone |-> TRUE],
+    QuoteHMS        |-> [date |-> "none", time |-> "hms",  frac |-> 0, zone |-> FALSE],
+    BackslashDate   |-> [date |-> "ymd",  time |-> "hms",  frac |-> 0, zone |-> FALSE]]
 
 LayoutIds == DOMAIN LayoutInfo
 Exported == {"TimeNoNano", "TimeNano", "DateTime", "RFC3339Nano", "RFC3339NanoOrig"}
